@@ -133,11 +133,50 @@ fn verif_send_stream_after_reset() {
     core::mem::forget(conn);
 }
 
+// C12: once the application has finished a stream (FIN announced at the current length) nothing
+// more is accepted for it - a later write attempt is refused with SendAfterFinish, a second finish
+// changes nothing - so the announced final size can never change or be exceeded. A reset afterwards
+// is still possible (and then reports a final size within the limits, see above).
+#[cfg_attr(kani, kani::proof)]
+#[cfg_attr(kani, kani::unwind(10))]
+#[cfg_attr(kani, kani::stub(core::panic::Location::caller, StubLoc::caller))]
+fn verif_send_stream_finish_is_final() {
+    use s2n_quic_core::stream::ops;
+    let conn_total: u32 = kani::any();
+    let stream_max: u32 = kani::any();
+    let conn = OutgoingConnectionFlowController::new(VarInt::from_u32(conn_total));
+    let mut s = SendStream::new(conn.clone(), false, VarInt::from_u32(stream_max), 4096);
+    let mut finish = ops::tx::Request::default();
+    finish.finish = true;
+    finish.flush = kani::any();
+    let r1 = s.poll_request(&mut finish, None);
+    assert!(matches!(r1, Ok(ref r) if r.status == ops::Status::Finishing));
+    assert!(matches!(s.data_sender.state(), data_sender::State::Finishing(_)));
+    let len_at_finish = s.data_sender.total_enqueued_len();
+    // a writer probing for room (or writing) afterwards is refused
+    let waker = core::task::Waker::noop();
+    let cx = Context::from_waker(waker);
+    let mut probe = ops::tx::Request::default();
+    let r2 = s.poll_request(&mut probe, Some(&cx));
+    assert!(matches!(r2, Err(StreamError::SendAfterFinish { .. })));
+    // finishing again is harmless and changes nothing
+    let mut again = ops::tx::Request::default();
+    again.finish = true;
+    let r3 = s.poll_request(&mut again, None);
+    assert!(matches!(r3, Ok(ref r) if r.status == ops::Status::Finishing));
+    assert!(s.data_sender.total_enqueued_len() == len_at_finish);
+    assert!(matches!(s.state, SendStreamState::Sending));
+    kani::cover!(true, "finish, refused write, second finish");
+    core::mem::forget(s);
+    core::mem::forget(conn);
+}
+
 // ---- generated by tools/fixup.py: native replay entry ----
 #[cfg(not(kani))]
 #[test]
 fn verif_replay() {
     kani::replay(&[
         ("verif_send_stream_after_reset", verif_send_stream_after_reset),
+        ("verif_send_stream_finish_is_final", verif_send_stream_finish_is_final),
     ]);
 }
